@@ -199,3 +199,28 @@ P['C17'] = dict(
   harnesses=[
     dict(name='H17B', src='C17_weights.cpp', covers=['end'], defines={'VCAP': 6, 'H17B': None}, cfg=dict(fp='real', query_timeout_ms=60000), ir_srcs=ALL_IR, native_srcs=ALL_IR, native_flags=['-llemon']),
   ])
+
+P['C03'] = dict(
+  design_ref='DESIGN.md section 3 C03',
+  level_text='Write-protection based frame check, executed by the solver-backed engine on the real entry points: (G) Circuit::placeGlobal end to end on a tiny circuit (Eigen conjugate gradient by contract, every float value unconstrained): position/orientation of the fixed cell, all orientations, sizes, flags, polarities, nets, pin offsets, weights and rows are write-protected for the whole call - any store on any path is a violation, and the values are compared at the public getters afterwards; (L) Circuit::legalize (C01 harness with a fixed cell): sizes, flags, polarities, nets, rows and the fixed cell compared before/after on returning and throwing paths; (D) placeDetailed on returning and throwing paths (C10 harness).',
+  text=dict(bounds=dict(quick='G: 2 movable + 1 fixed cell (obstruction flag enumerated), 4 rows, 2 nets, position of the fixed cell symbolic, 1 global placement step (exploration of the float-comparison outcomes cut at 60 s per job: reported as bound hits); L: 1 movable + 1 fixed cell; D: 2 movable cells', thorough='G: 2 steps'),
+            outside='more steps of global placement; larger circuits'),
+  assumptions=STD_ASSUME + [BOOST_ASSUME, EIGEN_ASSUME, 'all floating point values unconstrained (FP havoc): the frame condition must hold whatever the numbers are'],
+  harnesses=[
+    dict(name='H03G', src='C03_global.cpp', covers=['placeGlobal ended', 'end'], defines={'VCAP': 24, 'MAXSTEPS': 1}, cfg=dict(fp='havoc', time_budget=40), split=4, ir_srcs=ALL_IR, native_srcs=ALL_IR, native_flags=['-llemon'],
+         thorough=dict(defines={'MAXSTEPS': 2}, cfg=dict(time_budget=900))),
+    dict(name='H03L', src='C01_legalize.cpp', covers=['legalize ended', 'end'], defines=dict(C01_BASE, NC=1, NFIXED=1, YCHOICE=None, WCHOICE=None, POLCHOICES=2, TALLCHOICES=2, VCAP=10), cfg=dict(fp='havoc', time_budget=100), split=3, ir_srcs=ALL_IR, native_srcs=ALL_IR, native_flags=['-llemon']),
+    dict(name='H03D', src='C10_busy.cpp', covers=['placement call ended', 'end'], defines={'VCAP': 8}, cfg=dict(fp='havoc'), ir_srcs=ALL_IR, native_srcs=ALL_IR, native_flags=['-llemon']),
+  ])
+
+P['C08'] = dict(
+  design_ref='DESIGN.md section 3 C08',
+  level_text='Schedules are not enumerated; non-interference is decided instead, on the real code executed by the engine: (1) for every explored path of Circuit::placeGlobal the read and write footprints of the two std::async solves of each lower-bound step (bracketed by the std::async model, which decay-copies its arguments as the standard prescribes) are disjoint except for read-read sharing, so every interleaving and both completion orders equal the sequential execution and there is no data race in the repository code; (2) no writable global is defined by the library translation units and no store to a global happens on any explored path of placeGlobal / legalize / placeDetailed (no hidden state between runs); (3) no branch, assertion or observed value depends on uninitialised memory or on the clock; the random generator is a function of (seed, draw index).',
+  text=dict(bounds=dict(quick='placeGlobal: tiny circuit, 1 step (2 async pairs per path); legalize/placeDetailed: the C10 harness', thorough='2 steps'),
+            outside='the thread library and Eigen internals (environment); bitwise identity across machines; float results (all floats are unconstrained in these runs)'),
+  assumptions=STD_ASSUME + [EIGEN_ASSUME, 'std::async(launch::async, f, args...) decay-copies its arguments before the task runs and get() joins'],
+  harnesses=[
+    dict(name='H08G', src='C03_global.cpp', covers=['placeGlobal ended', 'end'], defines={'VCAP': 24, 'MAXSTEPS': 1}, cfg=dict(fp='havoc', time_budget=40, scan_globals=True), split=4, ir_srcs=ALL_IR, native_srcs=ALL_IR, native_flags=['-llemon'],
+         thorough=dict(defines={'MAXSTEPS': 2}, cfg=dict(time_budget=600))),
+    dict(name='H08D', src='C10_busy.cpp', covers=['placement call ended', 'end'], defines={'VCAP': 8}, cfg=dict(fp='havoc', scan_globals=True), ir_srcs=ALL_IR, native_srcs=ALL_IR, native_flags=['-llemon']),
+  ])
